@@ -74,3 +74,27 @@ def attach_fold():
     P.Contentlines.to_ical = icontract.ensure(cls_to_ical_post, error=ContractBroken)(P.Contentlines.to_ical)
     import icalendar.cal as C
     C.Component.to_ical = icontract.ensure(comp_to_ical_post, error=ContractBroken)(C.Component.to_ical)
+
+
+# ---------------------------------------------------------------- C07 TEXT escaping
+def attach_text():
+    import icontract
+    import icalendar.parser as P
+    import icalendar.prop as PR
+    from .refs import text as R1
+
+    def escape_post(text, result):
+        if not isinstance(result, str):
+            return True
+        bad = R1.unescaped_specials(result)
+        return _rec("escape_char", [f"unescaped {c} at {i} in {result[:80]!r}" for i, c in bad[:3]])
+
+    def vtext_post(self, result):
+        t = result.decode("utf-8", "replace")
+        bad = R1.unescaped_specials(t)
+        return _rec("vText.to_ical", [f"unescaped {c} at {i} in {t[:80]!r}" for i, c in bad[:3]])
+
+    w = icontract.ensure(escape_post, error=ContractBroken)(P.escape_char)
+    n = rebind_function("icalendar.parser", "escape_char", w)
+    EVALS["rebinds:escape_char"] += n
+    PR.vText.to_ical = icontract.ensure(vtext_post, error=ContractBroken)(PR.vText.to_ical)
